@@ -9,15 +9,15 @@ from __future__ import annotations
 
 import numpy as np
 
-from .. import gens, rt
+from .. import forms, gens, rt
 from ..common import Skip, brief
 
 ID = "C20"
 CASES = {"quick": 3000, "thorough": 40000}
 FLOOR = {"quick": 2500, "thorough": 35000}
 FLOOR_COUNTERS = {
-    "quick": {"tiny_regulariser_cases": 150, "lpr_values_judged": 20000, "cpr_values_judged": 8000, "rank_deficient_cases": 250, "single_env_structures": 1500, "containers_reused_with_other_contents": 700, "block3d_inputs": 700, "integer_typed_structures": 800, "features_absent_from_the_training_set": 200},
-    "thorough": {"tiny_regulariser_cases": 2000, "lpr_values_judged": 280000, "cpr_values_judged": 110000, "rank_deficient_cases": 3500, "single_env_structures": 20000, "containers_reused_with_other_contents": 10000, "block3d_inputs": 10000, "integer_typed_structures": 11000, "features_absent_from_the_training_set": 3000},
+    "quick": {"tiny_regulariser_cases": 150, "lpr_values_judged": 20000, "cpr_values_judged": 8000, "rank_deficient_cases": 250, "single_env_structures": 1500, "containers_reused_with_other_contents": 700, "block3d_inputs": 700, "integer_typed_structures": 800, "features_absent_from_the_training_set": 200, "alpha_given_as_a_shared_array": 800, "rejected_calls_in_the_history": 900},
+    "thorough": {"tiny_regulariser_cases": 2000, "lpr_values_judged": 280000, "cpr_values_judged": 110000, "rank_deficient_cases": 3500, "single_env_structures": 20000, "containers_reused_with_other_contents": 10000, "block3d_inputs": 10000, "integer_typed_structures": 11000, "features_absent_from_the_training_set": 3000, "alpha_given_as_a_shared_array": 10000, "rejected_calls_in_the_history": 12000},
 }
 RULE = (
     "case = 1-15 training and 1-8 test structures of 1-8 environments (incl. single-environment structures), feature "
@@ -64,6 +64,8 @@ def gen(rng, tier, index):
         "Xte": Xte,
         "form": form,
         "unseen": bool(unseen),
+        "alpha_array": gens.pick(rng, (None, None, None, "0d", "1d")),
+        "reject": bool(rng.random() < 0.4),
         "dtypes": dts,
         "decoy": [strucs(ntr), strucs(len(Xte))],
         "alpha": 1e-300 if deficient else (float(10.0 ** rng.uniform(-11.5, -9.0)) if nearsing else float(10.0 ** rng.uniform(-8, 3))),
@@ -158,13 +160,22 @@ def run(case, j):
         j.note("integer_typed_structures")
     if case.get("unseen"):
         j.note("features_absent_from_the_training_set")
+    alpha_value = alpha
+    if case.get("alpha_array"):
+        alpha = np.array([alpha_value])[0:1].reshape(()) if case["alpha_array"] == "0d" else np.array([alpha_value])  # ONE array object for every call
+        j.note("alpha_given_as_a_shared_array")
+    if case.get("reject"):
+        # a failure in the history: a component-wise call whose test set contains a malformed structure (a single
+        # environment handed over as a 1-D vector) is refused; the calls that follow know nothing of it
+        bad_te = [np.asarray(x, dtype=float) for x in Xte] + [np.asarray(Xte[0], dtype=float)[0]]
+        forms.rejected(j, "component-wise call with a malformed test structure", cpr_fn, [np.asarray(x, dtype=float) for x in Xtr], bad_te, alpha_value, comp.copy())
     args.first_life(lpr_fn, cpr_fn, alpha, comp)
     j.tag("rank-deficient" if case["deficient"] else ("tiny-regulariser" if case["alpha"] < 1e-8 else "regular"), f"components:{len(comp)}", f"dim:{d}")
     with rt.FPTrap() as fp:
         LPR, rd = j.lib("lpr", lpr_fn, *args.get(), alpha)
         CPR, LCPR, rd2 = j.lib("cpr", cpr_fn, *args.get(), alpha, comp.copy())
     Xte = [np.asarray(x, dtype=float) for x in Xte]
-    s, M = _closed_form(Xtr, alpha)
+    s, M = _closed_form(Xtr, alpha_value)
     ev = np.linalg.eigvalsh(M)
     clean = bool(np.all((ev > 1e-8 * ev[-1]) | (ev < 1e-13 * ev[-1])))
     if clean:
@@ -223,7 +234,7 @@ def run(case, j):
             j.close("LPR invariant under a common rescaling of all features", b, a, rtol * np.abs(a))
         CPRc, LCPRc, _ = cpr_fn(*args.get(c), alpha, comp.copy())
         j.close("CPR invariant under a common rescaling", CPRc[cpr_ok], CPR[cpr_ok], rtol * np.abs(CPR[cpr_ok]))
-        a2 = alpha * case["alpha2"]
+        a2 = alpha_value * case["alpha2"]
         LPR2, _ = lpr_fn(*args.get(), a2)
         for a, b in zip(LPR, LPR2):
             j.ok("LPR non-decreasing in alpha", bool(np.all(b >= a * (1 - 1e-9 - rtol))), (a, b))
@@ -239,6 +250,8 @@ def run(case, j):
         for a, b in zip(LPR, LPRz):
             j.close("LPR of the same arguments, asked again after other calls, is what it was", b, a, 1e-12 * np.abs(a))
         args.unchanged()
+        if case.get("alpha_array"):
+            j.ok("the array that holds alpha is what the caller made it", float(np.asarray(alpha).reshape(-1)[0]) == alpha_value, (float(np.asarray(alpha).reshape(-1)[0]), alpha_value))
         bad = fp.in_skmatter()
         if null_block:
             j.skip("fp-events-not-judged:a-masked-test-vector-is-exactly-null")
